@@ -11,7 +11,8 @@ IDS="${*:-C01 C02 C03 C04 C05 C06 C07 C08 C09 C10 C11 C12 C13 C14 C15 C16 C17}"
 WT="/tmp/mt-$NAME"; OUT="/tmp/mt-$NAME-out"
 git -C /repo worktree remove --force "$WT" 2>/dev/null; rm -rf "$WT" "$OUT"
 git -C /repo worktree add -q "$WT" HEAD || exit 2
-cleanup() { git -C /repo worktree remove --force "$WT" 2>/dev/null; rm -rf "$WT" "$OUT" "/verif/work/alt-"*".mod" 2>/dev/null; }
+SUF="$(echo "$WT" | cksum | cut -d' ' -f1)"
+cleanup() { git -C /repo worktree remove --force "$WT" 2>/dev/null; rm -rf "$WT" "$OUT" "/verif/work/alt-$SUF.mod" "/verif/bin/xpv-$SUF" "/verif/bin/xpv-race-$SUF" "/verif/work/build-$SUF.log" "/verif/work/build-race-$SUF.log" 2>/dev/null; }
 trap cleanup EXIT
 RACEFLAG=""
 [ "$DEMO" != "-" ] && grep -qi "race" "$DEMO" && RACEFLAG="-race"
